@@ -537,3 +537,61 @@ def U_G_games():
             games.append(g)
             games.append(_renumber(g, _reverse_perm(len(names))))
     return games
+
+
+def _large_acyclic(n, a, owners, numbering):
+    """one layered acyclic game on n states (logical order = topological order; physical numbering by `numbering`)"""
+    L, W = n - 2, n - 1
+    players, tl, rewards = [], [], []
+    for i in range(n - 2):
+        d = 1 + (i + a) % 3
+        raw = [i + 1 + (a * i) % 3, i + 2 + (a + i) % 5, i + 4 + (i * i + a) % 7][:d]
+        tg = []
+        for k, t in enumerate(raw):
+            if t >= n - 2:
+                t = W if (t + a + k) % 2 == 0 else L
+            tg.append(t)
+        if owners == 0:
+            who = (P1, P2, PR)[i % 3]
+        elif owners == 1:
+            who = (P1 if i % 8 == 0 else P2) if i % 4 == 0 else PR
+        else:
+            who = PR if i % 5 in (1, 2, 3) else (P1 if i % 5 == 0 else P2)
+        if who == PR:
+            vec = {1: [(1,)], 2: [(0.5, 0.5), (0.25, 0.75), (0.3, 0.7)], 3: [(0.25, 0.25, 0.5), (0.2, 0.3, 0.5)]}[d]
+            vec = vec[i % len(vec)]
+            tl.append([(vec[k], t) for k, t in enumerate(tg)])
+        else:
+            tl.append([(ACTIONS[k], t) for k, t in enumerate(tg)])
+        players.append(who)
+        rewards.append((i + a) % 3)
+    players += [PR, PR]
+    tl += [[(1, L)], [(1, W)]]
+    rewards += [0, 0]
+    g = dict(rewards=rewards, players=players, transition_list=tl, final_states=[W])
+    if numbering == "desc":
+        return _renumber(g, _reverse_perm(n))
+    if numbering == "inter":
+        rest = list(range(1, n))
+        order = rest[1::2] + rest[0::2]            # physical positions 1.. are given to the odd, then the even logical states
+        perm = [0] * n
+        for pos, s in enumerate(order):
+            perm[s] = pos + 1
+        return _renumber(g, perm)
+    return g
+
+
+U_A_SIZES_QUICK = (12, 17, 33, 51, 65, 100, 130, 258)
+U_A_SIZES_ALL = (12, 13, 17, 33, 34, 51, 65, 66, 100, 129, 130, 200, 258, 300, 513)
+
+
+def U_A_games(sizes=U_A_SIZES_ALL):
+    """large acyclic games (12 to 513 states, many player states): exact values by backward induction, so the solver's
+    results can be checked exactly far beyond the sizes the strategy-enumeration oracle reaches"""
+    games = []
+    for n in sizes:
+        for a in range(6):
+            for owners in range(3):
+                for numbering in ("asc", "desc", "inter"):
+                    games.append(_large_acyclic(n, a, owners, numbering))
+    return games
